@@ -65,7 +65,10 @@ pub fn qsieve(
 
     let mut target = fbase.len() * 8 / 10;
 
-    let maxlarge: u64 = fbase.bound() as u64 * prefs.large_factor.unwrap_or(large_prime_factor(&n));
+    let maxlarge: u64 = max_large_prime(
+        fbase.bound(),
+        prefs.large_factor.unwrap_or(large_prime_factor(&n)),
+    );
     let qs = SieveQS::new(n, &fbase, maxlarge, use_double);
     if prefs.verbose(Verbosity::Info) {
         let maxprime = fbase.bound() as u64;
@@ -220,6 +223,13 @@ pub fn qsieve(
         return vec![];
     }
     relations::final_step(&norig, &fbase, &rels.into_inner(), prefs.verbosity)
+}
+
+/// Bound for single large primes: a multiple of the largest factor base prime.
+/// Don't allow it to exceed 32 bits (as in MPQS/SIQS): fbase::cofactor computes
+/// maxlarge * maxlarge in 64-bit arithmetic.
+pub fn max_large_prime(maxprime: u32, factor: u64) -> u64 {
+    min(maxprime as u64 * factor, (1 << 32) - 1)
 }
 
 /// Large factor multiplier for classical QS.
